@@ -389,7 +389,7 @@ func (e *Engine) invoke(recv Value, m *types.Func, args []Value) Value {
 		panic(&goPanic{msg: "runtime error: invalid memory address or nil pointer dereference (method call on nil interface)", rt: true})
 	}
 	if nat, ok := ifc.V.(*Native); ok {
-		return e.nativeMethod(nat, m.Name(), args)
+		return e.nativeMethod(nat, m.Name(), args, m)
 	}
 	fn := e.methodOf(ifc.T, m.Name())
 	if fn == nil {
